@@ -194,10 +194,18 @@ Shape(par, hops) ==
     /\ \A k \in DOMAIN hops : hops[k].addr = "" => (~hops[k].dest /\ hops[k].rtt_us = 0)
 
 \* ends at the LOWEST ttl the destination answered (wire level: a proof-of-arrival reply delivered in window)
+\* ... and it ends EARLY only at a TTL the destination really answered: some delivered proof-of-arrival reply from the target for the
+\* probe of the last entry (or, for a direct TCP reply without per-probe identifier, for an earlier probe of the run)
+DestAnswered(H, snt, dl, t) ==
+    \E j \in DOMAIN snt : snt[j].ttl = t /\ \E i \in DOMAIN dl :
+        /\ dl[i].n > snt[j].n
+        /\ \/ (Answers(V(H), H.par.strict, snt[j].p, PktOf(H, dl[i])) /\ DestForm(V(H), snt[j].p, PktOf(H, dl[i])))
+           \/ (Caveat(V(H), PktOf(H, dl[i])) /\ \E kk \in 1..j : Direct(V(H), snt[kk].p, PktOf(H, dl[i])) /\ DestForm(V(H), snt[kk].p, PktOf(H, dl[i])))
 C03_run(H, snt, dl, hops) ==
     /\ Shape(H.par, hops)
     /\ LET D == DestTTLs(H, snt, dl)
        IN ((IsSerial(V(H)) => NoLateReply(H, snt, dl)) /\ D # {}) => Len(hops) <= Min(D) - H.par.min + 1
+    /\ Len(hops) < H.par.max - H.par.min + 1 => DestAnswered(H, snt, dl, H.par.min + Len(hops) - 1)
 
 (***************************************************************************)
 (* C04  Destination marking                                                *)
